@@ -514,6 +514,70 @@ def rule_no_residue_on_failure(ctx: Ctx, repo: Repo) -> None:
     ctx.floor("R-C02.11", "frame-ending events with a failing type collection", n, 20)
 
 
+def rule_yield_accumulation(ctx: Ctx, repo: Repo) -> None:
+    """R-C02.12: "the yield type covers every value the function yielded and nothing else": CallTrace.add_yield_type is
+    interpreted over sequences of yielded types (plain classes, containers whose PARAMETERS are classes that are yielded later,
+    `Type[C]` then `C`, repetitions, None) on one trace object; the result must be the union of exactly the distinct types
+    added - typing.Union's own normal form (flattened, duplicates dropped)."""
+    from . import rw_model as RW
+    from .rw_model import g, union, members, show
+    ci = repo.cls(M, "CallTrace")
+    fi = repo.method(ci, "add_yield_type")
+    if fi is None:
+        raise AnalysisError("CallTrace.add_yield_type not found")
+    ctx.functions.add(fi.fq)
+    i, s_, n_, b_ = RW.INT, RW.STR, RW.NONE_T, RW.BASE
+    seqs = [
+        [i], [i, i], [i, s_], [i, s_, i], [i, s_, n_], [n_, i],
+        [g("List", i), i], [g("Tuple", s_, i), s_], [g("Dict", i, RW.FLT), RW.FLT], [g("Type", b_), b_], [g("List", i), g("List", s_), i, s_],
+        [union(i, s_), s_], [g("List", union(i, s_)), i, s_], [i, g("List", i)], [g("Set", i), g("Set", i), i],
+        [RW.cls("class:Registry"), i], [i, RW.cls("class:Registry")],
+    ]
+
+    class _Sc(RW.RewriterScenario):
+        def __init__(self, repo_: Repo) -> None:  # the rewriter model's typing algebra (Union[...], __args__, generics) around another class
+            self.repo = repo_
+            self.ci = ci
+            self.fi = fi
+            self.attrs = {}
+            from .common import RepoInterp
+            self.ri = RepoInterp(repo_, fi, inline={f.fq for f in ci.methods.values()}, call_hook=self.call_hook, may_fork=(), heap=True, max_depth=8)
+            self.ri.self_class = ci
+            self.ri.on_attr = self.on_attr  # type: ignore[method-assign]
+            self.ri.interp.on_attr = self.on_attr
+            self.ri.on_subscript = self.on_subscript  # type: ignore[method-assign]
+            self.ri.interp.on_subscript = self.on_subscript
+
+        def call_hook(self, call, fname, fval, args, kwargs, st):  # type: ignore[override]
+            if (fname or "").split(".")[-1] == "cast" and len(args) == 2:
+                return args[1]
+            return RW.RewriterScenario.call_hook(self, call, fname, fval, args, kwargs, st)
+
+    n = 0
+    for seq in seqs:
+        st0 = State()
+        obj = st0.alloc("obj", {"__class__": K(ci.fq), "func": S("func"), "arg_types": K(()), "return_type": K(None), "yield_type": K(None)})
+        carry: Optional[State] = st0
+        for t in seq:
+            sc = _Sc(repo)
+            outs = sc.ri.run({"self": obj, fi.positional_params()[1]: t}, carry=carry)
+            if len(outs) != 1:
+                raise AnalysisError(f"add_yield_type: {len(outs)} outcomes")
+            carry = outs[0]
+            if carry.term is not None and carry.term[0] == "raise":
+                break
+            carry.term = None
+        n += 1
+        got = carry.freeze(carry.deref(obj)["yield_type"]) if carry is not None else None
+        want = union(*seq)
+        lab = " then ".join(show(t) for t in seq)
+        raised = carry is not None and carry.term is not None and carry.term[0] == "raise"
+        ok = not raised and got is not None and sorted(map(repr, members(got))) == sorted(map(repr, members(want)))
+        ctx.check(ok, "R-C02.12", fi.fq, "the yield type of a trace is the union of exactly the types of the values yielded so far",
+                  construct=f"yields typed {lab}: recorded {show(got) if got is not None and not raised else (carry.term if carry else None)}, expected {show(want)}")
+    ctx.floor("R-C02.12", "sequences of yielded types", n, 12)
+
+
 def run(ctx: Ctx, repo: Repo, tier: str) -> None:
     ctx.trust(*TRUSTED)
     ctx.assume("sys.setprofile delivers one 'call' per frame entry/resumption and one 'return' per exit/suspension")
@@ -523,6 +587,7 @@ def run(ctx: Ctx, repo: Repo, tier: str) -> None:
     ctx.attempt(rule_arg_capture, ctx, repo)
     ctx.attempt(rule_no_overwrite, ctx, repo)
     ctx.attempt(rule_no_residue_on_failure, ctx, repo)
+    ctx.attempt(rule_yield_accumulation, ctx, repo)
     ctx.attempt(rule_dispatch, ctx, repo)
     from .memo_rules import tracer_no_memory
     ctx.attempt(tracer_no_memory, ctx, repo, "R-C02.8")
